@@ -283,6 +283,10 @@ def privMsg (kind : String) (v : Val) : OutMsg :=
 def tokErr (kind e text : String) : Effect :=
   .reply { type := "usermessage", kind := kind, privileged := true, error := e, value := .sc (.str text) }
 
+/-- what the client is told when `token.Update` fails on the file (text canonicalised by the harness) -/
+def storeFaultReply : OutMsg :=
+  { type := "usermessage", kind := "token", privileged := true, error := "error", value := .sc (.str "EFBIG") }
+
 def emptyId : Effect := .fail (.proto "empty id")
 
 def permKinds : List String := ["op", "unop", "present", "unpresent", "shutup", "unshutup"]
@@ -587,6 +591,9 @@ structure World where
   kicks): the harness takes the schedule in which they arrive last in the step -/
   deferred : List (Nat × Action) := []
   crashed : Bool := false
+  /-- injected fault: rewriting the token file fails (the harness runs the handler with
+  RLIMIT_FSIZE 0), so `token.Update` returns an error and must leave the live table alone -/
+  storeFault : Bool := false
   /-- schedule choice supplied from outside: when a detached broadcast meets a
   blocking mock, `choice i` says whether client `i` was served before the mock -/
   choice : Nat → Bool := fun _ => true
@@ -1086,6 +1093,9 @@ def applyEffect (w : World) (i : Nat) (e : Effect) : World :=
     w.write i { type := "chat", dest := c.id, username := some "Server",
                 value := .sc (.str ("\n".intercalate sorted)) }
   | .mintToken t id issuedBy =>
+    -- the identifier drawn for the token is never revealed, and the harness numbers the server's
+    -- identifiers in the order in which they appear: give the number back
+    if w.storeFault then { w with nextR := w.nextR - 1 }.write i (storeFaultReply) else
     let pl := t.perms.getD []
     let (h, s) := w.heap.alloc pl
     let tok : Token := { id := id, group := t.group, user := t.user, perms := s, expires := t.expires,
@@ -1093,6 +1103,7 @@ def applyEffect (w : World) (i : Nat) (e : Effect) : World :=
     let w := { w with heap := h, tokens := w.tokens ++ [tok] }
     w.write i (privMsg "token" (.tok (tokView w tok)))
   | .editToken old ex nb =>
+    if w.storeFault then w.write i (storeFaultReply) else
     let (h, s) := w.heap.alloc (w.heap.get old.perms)
     let t : Token := { old with perms := s, expires := if ex.isSome then ex else old.expires,
                                 notBefore := if nb.isSome then nb else old.notBefore }
